@@ -162,7 +162,12 @@ func TestWorker(t *testing.T) {
 		idx := uint64(i*nworkers + worker)
 		seed := runSeed(base, famName, idx)
 		g := rand.New(rand.NewPCG(seed, 0x5eed))
-		params := fam.Gen(g, tier)
+		var params any
+		if fam.GenAt != nil && !raceMode {
+			params = fam.GenAt(idx, g, tier)
+		} else {
+			params = fam.Gen(g, tier)
+		}
 		if raceMode {
 			// marker for attributing race reports (which the runtime prints to stderr) to a run
 			fmt.Fprintf(os.Stderr, "\nVERIF-RUN idx=%d i=%d seed=%d\n", idx, i, seed)
@@ -470,6 +475,10 @@ func TestOne(t *testing.T) {
 		tier = "quick"
 	}
 	params := fam.Gen(g, tier)
+	if fam.GenAt != nil && os.Getenv("VERIF_IDX") != "" {
+		ix, _ := strconv.ParseUint(os.Getenv("VERIF_IDX"), 10, 64)
+		params = fam.GenAt(ix, g, tier)
+	}
 	pj, _ := json.Marshal(params)
 	fmt.Println("PARAMS", string(truncJSON(pj, 4000)))
 	res := RunOne(t, fam, params, seed, RunOpts{Strategy: -1, KeepHist: envInt("VERIF_HIST", 200), Record: true})
